@@ -159,6 +159,8 @@ pub fn generate(kind: &str, thorough: bool, seed: u64, corpus: &str, out: &mut O
             let mut sis = pool();
             sis.push(gen::SchemaInfo::new("ambig", &format!("{}{}", schemas::PRELUDE, schemas::AMBIG)));
             sis.push(gen::SchemaInfo::new("noquery", &format!("{}{}", schemas::PRELUDE, "type Other { a: Int } type Mutation { m: Int }")));
+            // interfaces nobody implements, alone and below an implemented interface: their possible types are empty, they overlap nothing
+            sis.push(gen::SchemaInfo::new("lonely", &format!("{}{}", schemas::PRELUDE, schemas::LONELY)));
             for i in 0..(6 * scale) { sis.push(gen::SchemaInfo::new(&format!("random{}", i), &gen::random_schema(&mut rng))); }
             for si in &sis {
                 out.schema(si);
@@ -227,6 +229,18 @@ pub fn generate(kind: &str, thorough: bool, seed: u64, corpus: &str, out: &mut O
                 out.schema(si);
                 let mut texts = corpus_docs(corpus, &si.name);
                 texts.extend(random_docs(si, &mut rng, 60 * scale, 4));
+                // layout variants: the same document laid out differently (prints identically, every position differs), next to the
+                // original in the batch - a result remembered under a key that ignores layout would carry the other text's locations
+                let relayout = |t: &str| -> String { t.replace("{ ", "{\n    ").replace(" }", "\n  }").replace(", ", ",\n      ") };
+                texts.push("{ k: __typename k: __schema { queryType { name } } }".to_string());
+                texts.push("query Q($u: Int) { k: __typename ... { k: __type(name: \"Q\") { name } } }".to_string());
+                let n0 = texts.len();
+                let mut with_variants = vec![];
+                for (i, t) in texts.iter().enumerate() {
+                    with_variants.push(t.clone());
+                    if i % 4 == 0 || i + 2 >= n0 { let v = relayout(t); if v != *t { with_variants.push(v); } }
+                }
+                let texts = with_variants;
                 crate::purity::batch(si, &texts, &tmp, fork.as_deref(), out);
             }
         }
@@ -448,6 +462,12 @@ pub fn generate(kind: &str, thorough: bool, seed: u64, corpus: &str, out: &mut O
                 ("VariablesInAllowedPosition", "query ($v: Int) { t { ...F } k: f(x: $v, r: 1) } fragment F on T { g(r: $v) }"),
                 ("ValuesOfCorrectType", "{ f(x: \"s\", r: 1) }"), ("ValuesOfCorrectType", "{ t { g(o: {opt: \"x\"}, r: 1) } }"), ("ValuesOfCorrectType", "{ t { t { g(l: [1, null], r: 1) } } }"), ("ValuesOfCorrectType", "{ f(r: null) }"),
                 ("VariablesAreInputTypes", "query ($v: T) { a }"),
+                // only the SECOND / THIRD operation violates, through a fragment an earlier operation has walked already
+                ("VariablesInAllowedPosition", "query A($v: Int!) { t { ...F } } query B($v: Int) { t { ...F } } fragment F on T { g(r: $v) }"),
+                ("VariablesInAllowedPosition", "query A($v: Int!) { ...F } query B($v: Int!) { ...F } query C($v: Int) { t { ...G } } fragment F on Query { t { ...G } } fragment G on T { g(r: $v) }"),
+                ("NoUndefinedVariables", "query A($v: Int!) { t { ...F } } query B { t { ...F } } fragment F on T { g(r: $v) }"),
+                ("NoUnusedVariables", "query A($v: Int!) { t { ...F } } query B($v: Int!, $w: Int) { t { ...F } } fragment F on T { g(r: $v) }"),
+                ("NoUnusedVariables", "query A($v: Int!) { t { ...F } } query B($v: Int!) { a } fragment F on T { g(r: $v) }"),
             ];
             for (rule, t) in singles.iter() {
                 crate::valcases::accept_case(&si1, t, &tmp, json!({"family": "single-violation", "violates": rule, "spec_invalid": true}), out);
@@ -877,6 +897,21 @@ pub fn generate(kind: &str, thorough: bool, seed: u64, corpus: &str, out: &mut O
                     crate::valcases::rules_case(&si, &doc, &rules, &tmp, out);
                 }
             } } }
+            // ---- several operations declare $x with different types and share the fragments that use it: a usage is judged against
+            //      each operation's own declaration, whatever was walked for the operations before it
+            {
+                let vts = ["Int!", "Int", "String!", "[Int]"];
+                for a in vts.iter() { for b in vts.iter() { for c in ["", "Int!", "Int", "String"].iter() { for shape in 0..3usize {
+                    let third = if c.is_empty() { String::new() } else { format!(" query C($x: {}) {{ w {{ ...G }} }}", c) };
+                    let frs = match shape {
+                        0 => "fragment F on Query { w { ...G } } fragment G on W { p1(v: $x) }",
+                        1 => "fragment F on Query { p1(v: $x) w { ...G } } fragment G on W { w { p1(v: $x) } }",
+                        _ => "fragment F on Query { ... on Query { w { ...G } } } fragment G on W { p1(v: $x) ...H } fragment H on W { w { p1(v: $x) } }",
+                    };
+                    let doc = format!("query A($x: {}) {{ ...F }} query B($x: {}) {{ ...F }}{} {}", a, b, third, frs);
+                    crate::valcases::rules_case(&si, &doc, &rules, &tmp, out);
+                } } } }
+            }
             // ---- definitions and uses across operations and fragments
             let defs = |m: usize| -> String {
                 let v: Vec<&str> = [(1, "$x: Int"), (2, "$y: Int")].iter().filter(|(b, _)| m & b != 0).map(|(_, t)| *t).collect();
@@ -1092,7 +1127,8 @@ pub fn generate(kind: &str, thorough: bool, seed: u64, corpus: &str, out: &mut O
             let nosub = gen::SchemaInfo::new("no-subscription", &format!("{}{}", schemas::PRELUDE, "schema { query: Query } type Query { a: Int }"));
             let ops = ["{ a }", "query { a }", "query A { a }", "query B { a }", "mutation A { m }", "mutation { m }", "subscription A { s1 }", "subscription { s1 s2 }"];
             let maxn = if thorough { 4 } else { 3 };
-            for si in [&implicit, &explicit, &nosub] {
+            let partial = gen::SchemaInfo::new("partial-roots", &format!("{}{}", schemas::PRELUDE, "schema { query: Query } type Query { a: Int } type Mutation { m: Int } type Subscription { s1: Int s2: Int }"));
+            for si in [&implicit, &explicit, &nosub, &partial] {
                 out.schema(si);
                 let mut cur: Vec<Vec<&str>> = vec![vec![]];
                 for _ in 0..maxn {
